@@ -4,6 +4,7 @@ import (
 	"fmt"
 	"os"
 	"strings"
+	"syscall"
 	"time"
 
 	"github.com/wader/fq/internal/verif/core"
@@ -72,6 +73,34 @@ func devSection(r *core.Run) {
 	inputs := pool(l1PoolText)
 	fq := newFQ()
 	g := newGrammar(K, r.Thorough())
+	if os.Getenv("C07_DEV_CPU") != "" {
+		cpu := func() time.Duration {
+			var ru syscall.Rusage
+			syscall.Getrusage(syscall.RUSAGE_SELF, &ru)
+			return time.Duration(ru.Utime.Nano() + ru.Stime.Nano())
+		}
+		d := &differ{r: r, fq: newFQ(), section: "L1"}
+		for _, K := range []int{1, 2} {
+			g := newGrammar(K, false)
+			var all []string
+			g.each(K, func(p string) { all = append(all, p) })
+			nb := len(all) / 96
+			c0 := cpu()
+			w0 := time.Now()
+			done := 0
+			for b := 0; b < nb; b += 60 {
+				d.compareBatch(all[b*96:(b+1)*96], inputs, false)
+				done += 96
+			}
+			c := cpu() - c0
+			fmt.Printf("K=%d: %d programs sampled of %d: cpu %v wall %v => %.3f cpu-ms/program => full size %.0f cpu-s\n", K, done, len(all), c, time.Since(w0), float64(c.Microseconds())/1000/float64(done), float64(c.Seconds())/float64(done)*float64(len(all)))
+		}
+		for _, v := range r.Violations() {
+			fmt.Printf("VIOL %s: %.300s\n", v.Signature, v.What)
+		}
+		fmt.Printf("counters: ref %d fq %d classify %d total %d ms\n", r.Counter("ms_reference"), r.Counter("ms_fq_batches"), r.Counter("ms_classification_and_confirmation"), r.Counter("ms_total_in_compare"))
+		return
+	}
 	if os.Getenv("C07_DEV_SAMPLE") != "" {
 		var all []string
 		g.each(K, func(p string) { all = append(all, p) })
